@@ -329,8 +329,13 @@ def cmd_gen(args):
         print('  %-24s %d' % (k, v))
 
 
+DATA = os.path.join(ROOT, 'tools', 'mutation-data')   # committed copies of the stage files
+
+
 def load(name):
     p = os.path.join(OUT, name)
+    if not os.path.exists(p):
+        p = os.path.join(DATA, name)
     if not os.path.exists(p):
         return []
     return [json.loads(l) for l in open(p) if l.strip()]
@@ -611,6 +616,10 @@ def cmd_report(args):
     b2 = {}
     for r in load('stageB2.jsonl'):
         b2[r['id']] = r
+    bx = {}
+    for r in load('stageBx.jsonl'):
+        if r['verdict'] == 'detected' or r['id'] not in bx:
+            bx[r['id']] = r
     tri_p = os.path.join(ROOT, 'tools', 'mutation-triage.json')
     tri = json.load(open(tri_p)) if os.path.exists(tri_p) else {}
     files = sorted(FILE_PROPS)
@@ -681,7 +690,7 @@ def cmd_report(args):
             t = tri.get(m['id'])
             if not t or t.get('class') != cls or m['id'] not in b or b[m['id']]['verdict'] != 'UNDETECTED':
                 continue
-            d = m['descr'].replace('|', '\\|')
+            d = m['descr'].replace('|', '\\|').replace('`', "'")
             if cls in ('equivalent', 'detected-elsewhere'):
                 L.append('| %s | %s:%d | `%s` | %s |' % (m['id'], m['file'], m['line'], d, t.get('reason', '')))
             else:
@@ -700,7 +709,9 @@ def cmd_report(args):
         if not r:
             continue
         v = r['verdict'] if r['verdict'] != 'detected' else 'detected by %s (%s)' % (r['by'], r['how'])
-        L.append('| %s | %s:%d | %s | `%s` | %s |' % (m['id'], m['file'], m['line'], m['op'], m['descr'].replace('|', '\\|')[:90], v))
+        if r['verdict'] == 'UNDETECTED':
+            v += ' - ' + tri.get(m['id'], {}).get('class', 'untriaged')
+        L.append('| %s | %s:%d | %s | `%s` | %s |' % (m['id'], m['file'], m['line'], m['op'], m['descr'].replace('|', '\\|').replace('`', "'")[:90], v))
     open(os.path.join(ROOT, 'tools', 'mutation-results.md'), 'w').write('\n'.join(L) + '\n')
     print('\n'.join(L[:40]))
 
